@@ -51,6 +51,12 @@ def dest_op(rng, kind, alloc, nimg):
 def gen_ops(rng, tier):
     ops = []
     big = tier == "thorough"
+    # the longest encoded blocks there are (largest legal magnitude in every position), enough of them to make the encoder
+    # fall back to its local per-block buffer at the end of the destination buffer
+    for prec, val in ((8, 1023), (12, 16383)):
+        for mode in (0, 1):
+            for pos in (-1, -2):
+                ops.append("xcoef %d %d %d %d %d 0" % (prec, mode, val, pos, rng.choice([60, 100, 150])))
     for i in range(3000 if big else 400):
         kind = rng.choice(["tj", "tj", "std"])
         alloc = rng.randint(0, 1) if kind == "tj" else 1
